@@ -104,6 +104,7 @@ class C10Engine(Engine):
             w.capture = True
             chk.feed(w.start())
             target = self.pick_target(spec)
+            spec["target"] = target
             clients = None
             for i, st in enumerate(spec["steps"]):
                 n_before = len(w.images)
